@@ -4,12 +4,18 @@
     GetTasksToEvict / IsReadyForScheduling / IsGangSatisfied /
     ShouldPipelineJob by the function-level correspondence check of Run/C03.v;
     the decisions of whole real cycles are checked by the monitor c03_ok
-    (Run/Cycle.v).  Partial: the commit discipline (all tasks of the allocation
-    unit are placed or the statement is rolled back; a partially nominated gang
-    is converted to nominations) is validated by the cycle monitor and the
-    cycle-level refinement check, not proved. *)
+    (Run/Cycle.v).  The commit discipline of the allocate action (all tasks of
+    the allocation unit are placed or the statement is discarded; a gang of which
+    only a part can be bound now is converted to nominations; a committed job is
+    attempted again while it has tasks to allocate) is modelled at the level of
+    counts in Model/GangAttempt.v on top of Model/Gang.v, with the node each task
+    lands on (bound / nominated / nowhere) as an oracle; it is tied to the real
+    allocate action by the attempt cases of Run/C03.v (the model's loop, driven
+    by the observed calls, must end in the observed statuses).  Still only
+    validated, not proved: the same discipline inside the scenario solvers of
+    reclaim / preempt / consolidation (monitor c03_ok on whole cycles). *)
 From Coq Require Import List ZArith PArith Bool.
-From KaiV Require Import Model.Status Model.Gang Proofs.Gang.
+From KaiV Require Import Model.Status Model.Gang Model.GangAttempt Proofs.Gang Proofs.GangAttempt.
 Import ListNotations.
 Open Scope Z_scope.
 
@@ -49,6 +55,61 @@ Theorem C03_eviction_needs_order_contract :
   /\ 0 < n_active_alloc w_a.
 Proof. exact eviction_needs_order_contract. Qed.
 Print Assumptions C03_eviction_needs_order_contract.
+
+(** The bind clause, for every placement oracle: a committed attempt on a ready
+    workload binds pods of a pod set only if the pod set then has its minimum of
+    pods that really hold resources (nominations do not count). *)
+Theorem C03_attempt_binds_whole_gangs :
+  forall (real : bool) (os : omap) (pss : list pset) (ms : list mset),
+    forallb ready pss = true ->
+    attempt real os pss = Some ms ->
+    Forall (fun m => newly_bound m = 0 \/ ms_min m <= n_holding (forget m)) ms.
+Proof. exact attempt_gang_discipline. Qed.
+Print Assumptions C03_attempt_binds_whole_gangs.
+
+(** All or nothing: every pod set is left alone or receives exactly the tasks
+    GetTasksToAllocate took from it; an attempt with a failing placement is
+    discarded ([attempt] = [None]). *)
+Theorem C03_attempt_all_or_nothing :
+  forall (real : bool) (os : omap) (pss : list pset) (ms : list mset),
+    attempt real os pss = Some ms ->
+    Forall2 (fun ps m => ms_id m = ps_id ps /\ ms_min m = ps_min ps
+                         /\ (n_placed m = 0 \/ n_placed m = taken_of real ps)) pss ms.
+Proof. exact attempt_all_or_nothing. Qed.
+Print Assumptions C03_attempt_all_or_nothing.
+
+(** "If only part of a gang can be bound now and the rest must wait for
+    terminating capacity, the whole gang is nominated and nothing is bound." *)
+Theorem C03_partial_gang_is_nominated :
+  forall (real : bool) (os : omap) (pss : list pset) (ms0 : list mset) (o : omap),
+    attempt_go real (max_sets_to_allocate pss) os pss = Some (ms0, o) ->
+    should_pipeline (map forget ms0) = true ->
+    attempt real os pss = Some (map convert_set ms0)
+    /\ Forall (fun m => newly_bound m = 0 /\ newly_piped m = n_placed m) (map convert_set ms0).
+Proof. exact partial_gang_is_nominated. Qed.
+Print Assumptions C03_partial_gang_is_nominated.
+
+(** The loop of the action: every attempt committed for a job during the action
+    obeys the bind clause, and the job stays ready, for any fuel and oracle. *)
+Theorem C03_every_attempt_of_the_action :
+  forall (real : bool) (fuel : nat) (os : omap) (pss : list pset)
+         (tr : list (list mset)) (fin : list pset) (o : omap),
+    forallb ready pss = true ->
+    allocate_job fuel real os pss = (tr, fin, o) ->
+    Forall (Forall (fun m => newly_bound m = 0 \/ ms_min m <= n_holding (forget m))) tr
+    /\ forallb ready fin = true.
+Proof. intros real. exact (allocate_job_discipline real). Qed.
+Print Assumptions C03_every_attempt_of_the_action.
+
+Theorem C03_attempt_nonvacuous :
+  forallb ready [g_set] = true
+  /\ (exists ms, attempt true [(1%positive, [OBound; OBound])] [g_set] = Some ms
+                 /\ map newly_bound ms = [2] /\ map (fun m => n_holding (forget m)) ms = [3])
+  /\ (exists ms, attempt true [(1%positive, [OBound; OPiped])] [g_set] = Some ms
+                 /\ map newly_bound ms = [0] /\ map newly_piped ms = [2])
+  /\ attempt true [(1%positive, [OBound; OFail])] [g_set] = None.
+Proof. exact attempt_nonvacuous. Qed.
+Print Assumptions C03_attempt_nonvacuous.
 
 Theorem C03_nonvacuous :
   forallb ready [e_set] = true /\ tasks_to_allocate true [e_set] = [(1%positive, 2)]
